@@ -34,7 +34,7 @@ def sec_to_public_pair(
                 raise EncodingError("y coordinate is not below the field prime")
             return (x, y)
     elif len(sec) == 1 + byte_count:
-        if not strict or (sec0 in (b"\2", b"\3")):
+        if sec0 in (b"\2", b"\3"):
             is_y_odd = sec0 != b"\2"
             assert generator is not None
             return cast(tuple[int, int], generator.points_for_x(x)[is_y_odd])
